@@ -1,4 +1,4 @@
-\* C41 quick: legacy density resolution, all (deep context, a, b) over ratio tips at four magnitudes
+\* C41 quick: legacy density resolution, all (deep context, a, b) over ratio tips at three magnitudes
 CONSTANT MaxBN = 1
 CONSTANT MaxVRF = 0
 CONSTANT MaxSlot = 1
@@ -10,7 +10,7 @@ CONSTANT Arity = 2
 CONSTANT SampleMod = 1
 CONSTANT TipKind = "ratio"
 CONSTANT RBlocks = {1, 2}
-CONSTANT SpanBases = {3, 1000, 1000000, 300000000}
+CONSTANT SpanBases = {3, 1000000, 300000000}
 CONSTANT SpanMults = {1, 2}
 CONSTANT SpanOffsets = {0, 1}
 CONSTANT ResRoot = 31623
